@@ -1,4 +1,5 @@
 import Dasp.Lemmas.Envelope
+import Dasp.Lemmas.EnvRounding
 import Mathlib.Analysis.Complex.Exponential
 import Mathlib.Tactic.NormNum
 /-!
@@ -21,9 +22,13 @@ and `dasp_envelope/src/detect/mod.rs` once, generically over the arithmetic clas
 libm) against the compiled crates on every run; the theorems are about the same definitions at an
 arbitrary linearly ordered field `K` (exact arithmetic, `gain.to_sample()` the identity) and, for the
 integer rectifiers, over `Int`.  `exp` enters only through its range (`calcGain_in_unit_interval`),
-instantiated at `Real.exp` in `real_gain`.  The float statement "between" is exact-arithmetic here;
-on the machine floats it is checked by the harness on every output (exactly for every gain
-< 1 − 2^−20, with a labelled one-ulp tolerance above).
+instantiated at `Real.exp` in `real_gain`.  "Between" is proved twice: in exact arithmetic
+(`env_step_between`) and in ROUNDED arithmetic (section 2b: every operation followed by a monotone,
+idempotent, zero-fixing rounding — proved of the soft-float's rounding for every format): the float
+envelope never passes the detected value and never passes `fl(d + fl(l − d))`, which is the previous
+envelope up to the two roundings in it (`overshoot_bound`).  On the machine floats the same is
+checked by the harness on every output (exactly for every gain < 1 − 2^−20, with a labelled
+one-ulp tolerance above — the `e*` of the theorem).
 -/
 set_option linter.unusedSectionVars false
 set_option linter.dupNamespace false
@@ -87,6 +92,42 @@ theorem env_step_zero_time (expO : K → K) (other l d : K) :
     (¬ l < d → envSample id other (calcGain expO 0) l d = d) := by
   have h0 : calcGain expO (0 : K) = 0 := by simp [calcGain, Arith.beq, Arith.zero]
   refine ⟨h0, fun h => ?_, fun h => ?_⟩ <;> rw [envSample_eq, h0] <;> simp [gainOf, h]
+
+
+/-! ## 2b. The envelope step in rounded (floating-point) arithmetic -/
+
+open Dasp.Envelope.Rounding Dasp.Rms.Rounding in
+/-- *"hence it always lies between the previous envelope and the detected value"*, in floating
+    point: for ANY rounding that is monotone, idempotent and fixes 0 (IEEE round-to-nearest-even is;
+    `softfloat_env_rounding`), a representable detected value `d`, any previous envelope `l` and gains
+    in `[0, 1]`, the computed envelope `fl(d + fl(fl(l − d)·g))` lies between `d` and
+    `e* = fl(d + fl(l − d))` — it NEVER passes the detected value, and on the side of the previous
+    envelope it is bounded by the float recomputation of `l` from `d` and the rounded difference -/
+theorem env_step_between_rounded {rnd : K → K} (ok : RndMono rnd) (attack release l d : K) (hd : rnd d = d)
+    (ha : 0 ≤ attack ∧ attack ≤ 1) (hr : 0 ≤ release ∧ release ≤ 1) :
+    (d ≤ l → d ≤ envR rnd attack release l d ∧ envR rnd attack release l d ≤ eStar rnd l d) ∧
+    (l ≤ d → eStar rnd l d ≤ envR rnd attack release l d ∧ envR rnd attack release l d ≤ d) :=
+  envR_between ok attack release l d hd ha hr
+
+open Dasp.Envelope.Rounding Dasp.Rms.Rounding in
+/-- `e*` is the previous envelope up to the two roundings in it: with relative error `u` and absolute
+    (underflow) error `η` per rounding, `|e* − l| ≤ (1+u)(u·|l − d| + η) + u·|l| + η` — one ulp of the
+    larger of the two -/
+theorem env_overshoot_bound {rnd : K → K} {u η : K} (ok : RndOK rnd u η) (l d : K) :
+    |eStar rnd l d - l| ≤ (1 + u) * (u * |l - d| + η) + u * |l| + η :=
+  overshoot_bound ok l d
+
+open Dasp.Envelope.Rounding in
+/-- *"equals the detected value when the time is 0"* — exactly, in floating point too: with gain 0
+    the computed envelope is the (representable) detected value itself -/
+theorem env_step_zero_time_rounded {rnd : K → K} (ok : RndMono rnd) (l d other : K) (hd : rnd d = d) :
+    (l < d → envR rnd 0 other l d = d) ∧ (¬ l < d → envR rnd other 0 l d = d) :=
+  envR_zero_gain ok l d hd other
+
+/-- the hypotheses are what IEEE rounding provides: the rounding of the executable soft-float is
+    monotone, fixes 0 and is idempotent, for every format with at least one significand bit -/
+theorem softfloat_env_rounding (F : Fmt2) (hp : 1 ≤ F.prec) : Dasp.Envelope.Rounding.RndMono (rs F) :=
+  softfloat_rounding_mono F hp
 
 /-- *"gain exp(-1/frames) (0 for zero frames)"* lies in `[0, 1)` for every time `≥ 0`, assuming of
     the exponential only `0 ≤ exp y < 1` for `y < 0` -/
@@ -185,5 +226,14 @@ example : iter (1/2 : ℚ) (1/4) 1 3 0 = 7/8 := by
   norm_num at this; linarith
 /-- the gain hypotheses are satisfiable -/
 example : (0 : ℚ) ≤ 1/2 ∧ (1/2 : ℚ) ≤ 1 := by norm_num
+
+/-- the rounded-arithmetic theorem on binary32: previous envelope fl(1/3), detected value 0 (representable),
+    release gain 1/4: the computed envelope lies in [0, e*] -/
+example :
+    0 ≤ Dasp.Envelope.Rounding.envR (rs f32) (1/2) (1/4) (rs f32 (1/3)) 0 ∧
+    Dasp.Envelope.Rounding.envR (rs f32) (1/2) (1/4) (rs f32 (1/3)) 0
+      ≤ Dasp.Envelope.Rounding.eStar (rs f32) (rs f32 (1/3)) 0 :=
+  (env_step_between_rounded (softfloat_env_rounding f32 (by decide)) (1/2) (1/4) (rs f32 (1/3)) 0 (rs_zero f32)
+    (by norm_num) (by norm_num)).1 (rs_nonneg f32 (by norm_num))
 
 end Dasp.Props.C19
